@@ -61,9 +61,18 @@ type ctx struct {
 	helper  bool   // translating the body of an inlined unexported helper
 	hret    string // its returned string expression
 	depth   int
+	optRecv string // receiver name of the option's apply method
+	accept  string // pending inverted count guard: "field|(Some (op, n))"
 }
 
 func q(s string) string { return tr.CoqString(s) }
+
+func (c *ctx) typeOf(e ast.Expr) string {
+	if tv, ok := c.p.Info.Types[e]; ok && tv.Type != nil {
+		return tv.Type.String()
+	}
+	return ""
+}
 
 func (c *ctx) constString(e ast.Expr) (string, bool) {
 	tv, ok := c.p.Info.Types[e]
@@ -139,7 +148,7 @@ func (c *ctx) strExpr(e ast.Expr) string {
 			if i, ok := c.params[id.Name]; ok && c.pkinds[i] == "bounds" {
 				return fmt.Sprintf("(EField %d %s)", i, q(x.Sel.Name))
 			}
-			if c.inOpt && id.Name == "o" && x.Sel.Name == "n" {
+			if c.inOpt && id.Name == c.optRecv && c.typeOf(x) == "int" {
 				return "EOptInt"
 			}
 		}
@@ -239,7 +248,7 @@ func (c *ctx) strExpr(e ast.Expr) string {
 					}
 				}
 				if s2, ok := recv.(*ast.SelectorExpr); ok {
-					if id, ok := s2.X.(*ast.Ident); ok && id.Name == "o" && s2.Sel.Name == "t" {
+					if id, ok := s2.X.(*ast.Ident); ok && id.Name == c.optRecv && c.typeOf(s2) == "time.Time" {
 						checkLayout(c.p, e, layout)
 						return fmt.Sprintf("(EOptTime %v %s)", utc, q(layout))
 					}
@@ -389,6 +398,15 @@ func (c *ctx) nonEmpty(e ast.Expr) (ast.Expr, bool) {
 		return be.Y, true
 	}
 	return nil, false
+}
+
+// isEmptyTest recognises the ways of asking whether a string is empty
+func (c *ctx) isEmptyTest(e ast.Expr) (ast.Expr, bool) {
+	be, ok := e.(*ast.BinaryExpr)
+	if !ok || be.Op != token.EQL {
+		return nil, false
+	}
+	return c.nonEmpty(&ast.BinaryExpr{X: be.X, Op: token.NEQ, Y: be.Y, OpPos: be.OpPos})
 }
 
 // notFirst recognises the ways of asking whether the loop index i is past the first element
@@ -621,7 +639,80 @@ func (c *ctx) targetField(e ast.Expr) (string, bool) {
 	return se.Sel.Name, true
 }
 
+// terminates: the block always returns
+func terminates(b []ast.Stmt) bool {
+	if len(b) == 0 {
+		return false
+	}
+	switch x := b[len(b)-1].(type) {
+	case *ast.ReturnStmt:
+		return true
+	case *ast.IfStmt:
+		if x.Else == nil {
+			return false
+		}
+		switch e := x.Else.(type) {
+		case *ast.BlockStmt:
+			return terminates(x.Body.List) && terminates(e.List)
+		case *ast.IfStmt:
+			return terminates(x.Body.List) && terminates([]ast.Stmt{e})
+		}
+	}
+	return false
+}
+
+// flatten rewrites control flow into the early-return form the readers below understand:
+//   if A { ...return } else { rest }   ==>  if A { ...return }; rest
+//   if A { ...return } else if B ...   ==>  if A { ...return }; if B ...
+//   switch { case A: ...return; case B: ...return; default: rest }  ==>  if A {...}; if B {...}; rest
+// (only when the earlier branches always return, so that falling through is the same thing)
+func flatten(list []ast.Stmt) []ast.Stmt {
+	var out []ast.Stmt
+	for _, s := range list {
+		switch x := s.(type) {
+		case *ast.IfStmt:
+			if x.Else != nil && terminates(x.Body.List) {
+				y := *x
+				y.Else = nil
+				out = append(out, &y)
+				switch e := x.Else.(type) {
+				case *ast.BlockStmt:
+					out = append(out, flatten(e.List)...)
+				case *ast.IfStmt:
+					out = append(out, flatten([]ast.Stmt{e})...)
+				}
+				continue
+			}
+		case *ast.SwitchStmt:
+			if x.Tag == nil && x.Init == nil {
+				ok := true
+				var ifs, def []ast.Stmt
+				for _, cl := range x.Body.List {
+					cc := cl.(*ast.CaseClause)
+					if cc.List == nil {
+						def = cc.Body
+						continue
+					}
+					if len(cc.List) != 1 || !terminates(cc.Body) {
+						ok = false
+						break
+					}
+					ifs = append(ifs, &ast.IfStmt{If: cc.Pos(), Cond: cc.List[0], Body: &ast.BlockStmt{Lbrace: cc.Colon, List: cc.Body, Rbrace: cc.End()}})
+				}
+				if ok {
+					out = append(out, ifs...)
+					out = append(out, flatten(def)...)
+					continue
+				}
+			}
+		}
+		out = append(out, s)
+	}
+	return out
+}
+
 func (c *ctx) stmts(list []ast.Stmt) {
+	list = flatten(list)
 	for i := 0; i < len(list); i++ {
 		s := list[i]
 		if c.ret != "" {
@@ -797,6 +888,31 @@ func (c *ctx) rangeStmt(x *ast.RangeStmt) {
 }
 
 func (c *ctx) ifStmt(x *ast.IfStmt) {
+	// if [l := len(o.F);] <count> == 1 { return o.F[0], nil }   (the error return follows)
+	if be, ok := x.Cond.(*ast.BinaryExpr); ok && x.Else == nil && len(x.Body.List) == 1 {
+		if rs, ok := x.Body.List[0].(*ast.ReturnStmt); ok && len(rs.Results) == 2 {
+			if ie, ok := rs.Results[0].(*ast.IndexExpr); ok {
+				if f, ok := c.targetField(ie.X); ok {
+					counted := be.X
+					if x.Init != nil {
+						if as, ok := x.Init.(*ast.AssignStmt); ok && len(as.Lhs) == 1 && len(as.Rhs) == 1 && render(c.p, as.Lhs[0]) == render(c.p, be.X) {
+							counted = as.Rhs[0]
+						}
+					}
+					la, isLen := c.lenOf(counted)
+					z0, isZero := c.constInt(ie.Index)
+					n, isConst := c.constInt(be.Y)
+					nop := map[token.Token]string{token.EQL: "!=", token.NEQ: "==", token.LSS: ">=", token.GEQ: "<", token.GTR: "<=", token.LEQ: ">"}[be.Op]
+					if isLen && isZero && z0 == "0" && isConst && nop != "" && render(c.p, rs.Results[1]) == "nil" {
+						if f2, ok := c.targetField(la); ok && f2 == f {
+							c.accept = f + "|" + fmt.Sprintf("(Some (%s, %s))", q(nop), n)
+							return
+						}
+					}
+				}
+			}
+		}
+	}
 	// if err := ds.getFromAPI(ctx, url, &o); err != nil { return nil, err }
 	if x.Init != nil {
 		if as, ok := x.Init.(*ast.AssignStmt); ok && len(as.Rhs) == 1 {
@@ -867,34 +983,57 @@ func (c *ctx) ifStmt(x *ast.IfStmt) {
 			}
 		}
 	}
-	// if len(params) > 0 { url += "&" + params }   (or params != "", len(params) != 0, ...)
-	if x.Else == nil {
-		if arg, ok := c.nonEmpty(x.Cond); ok {
-			{
-				cond := c.strExpr(arg)
-				saved := map[string]sym{}
-				for k, v := range c.env {
-					saved[k] = v
+	// if len(params) > 0 { url += "&" + params }   (or params != "", len(params) != 0, an else
+	// branch, the inverted test with the branches swapped)
+	{
+		arg, ok := c.nonEmpty(x.Cond)
+		thenB, elseB := x.Body.List, []ast.Stmt(nil)
+		if eb, isBlock := x.Else.(*ast.BlockStmt); isBlock {
+			elseB = eb.List
+		} else if x.Else != nil {
+			ok = false
+		}
+		if !ok && (x.Else == nil || elseB != nil) {
+			if a2, ok2 := c.isEmptyTest(x.Cond); ok2 {
+				arg, ok = a2, true
+				thenB, elseB = elseB, thenB
+			}
+		}
+		if ok && x.Init == nil {
+			cond := c.strExpr(arg)
+			saved := map[string]sym{}
+			for k, v := range c.env {
+				saved[k] = v
+			}
+			branch := func(b []ast.Stmt) map[string]sym {
+				c.env = map[string]sym{}
+				for k, v := range saved {
+					c.env[k] = v
 				}
-				for _, s := range x.Body.List {
+				for _, s := range b {
 					as, ok := s.(*ast.AssignStmt)
 					if !ok {
-						fail(c.p, s, "unsupported statement in a len(..) > 0 block")
+						fail(c.p, s, "unsupported statement in a non-empty test block")
 					}
 					c.assign(as)
 				}
-				for k, v := range c.env {
-					if old, ok := saved[k]; ok && old.text != v.text {
-						if v.kind != "str" || old.kind != "str" {
-							fail(c.p, x, "conditional update of a non-string")
-						}
-						c.env[k] = sym{kind: "str", text: "(EIfNonEmpty " + cond + " " + v.text + " " + old.text + ")"}
-					} else if !ok {
-						delete(c.env, k)
-					}
-				}
-				return
+				return c.env
 			}
+			et := branch(thenB)
+			ee := branch(elseB)
+			c.env = map[string]sym{}
+			for k, old := range saved {
+				vt, ve := et[k], ee[k]
+				if vt.text == old.text && ve.text == old.text {
+					c.env[k] = old
+					continue
+				}
+				if vt.kind != "str" || ve.kind != "str" {
+					fail(c.p, x, "conditional update of a non-string")
+				}
+				c.env[k] = sym{kind: "str", text: "(EIfNonEmpty " + cond + " " + vt.text + " " + ve.text + ")"}
+			}
+			return
 		}
 	}
 	fail(c.p, x, "unsupported if statement %s", render(c.p, x))
@@ -951,6 +1090,17 @@ func (c *ctx) returnStmt(x *ast.ReturnStmt) {
 	}
 	if len(x.Results) != 2 {
 		fail(c.p, x, "unsupported return")
+	}
+	if c.accept != "" {
+		// the error return that follows an accepting count test
+		if r0, ok := x.Results[0].(*ast.Ident); ok && r0.Name == "nil" {
+			if _, ok := isCall(x.Results[1], "fmt", "Errorf"); ok && c.urlExpr != "" && len(c.guards) == 0 {
+				parts := strings.SplitN(c.accept, "|", 2)
+				c.ret = "(RetIndex0 " + q(parts[0]) + " " + parts[1] + ")"
+				return
+			}
+		}
+		fail(c.p, x, "unsupported return after an accepting count test")
 	}
 	if id, ok := x.Results[1].(*ast.Ident); !ok || id.Name != "nil" {
 		fail(c.p, x, "final return with a non-nil error")
@@ -1081,13 +1231,33 @@ func translateOption(p *tr.Pkg, decls map[string]*ast.FuncDecl, ctor string) str
 	if am == nil {
 		fail(p, fd, "option type %s has no apply method", tname)
 	}
-	if len(am.Recv.List[0].Names) != 1 || am.Recv.List[0].Names[0].Name != "o" {
-		fail(p, am, "apply method receiver is not named o")
+	if len(am.Recv.List[0].Names) != 1 {
+		fail(p, am, "apply method has no named receiver")
 	}
+	recvName := am.Recv.List[0].Names[0].Name
 	pname := am.Type.Params.List[0].Names[0].Name
-	c := &ctx{p: p, decls: decls, params: map[string]int{}, env: map[string]sym{}, inOpt: true}
+	c := &ctx{p: p, decls: decls, params: map[string]int{}, env: map[string]sym{}, inOpt: true, optRecv: recvName}
 	reject := "None"
-	body := am.Body.List
+	body := flatten(am.Body.List)
+	if len(body) == 2 {
+		if is, ok := body[0].(*ast.IfStmt); ok && is.Init == nil && is.Else == nil && len(is.Body.List) == 1 {
+			if rs, ok := is.Body.List[0].(*ast.ReturnStmt); ok && len(rs.Results) == 2 {
+				if _, isAppend := isFunc(rs.Results[0], "append"); isAppend {
+					// accepting form: swap into the rejecting one with the negated condition
+					if rs2, ok := body[1].(*ast.ReturnStmt); ok && len(rs2.Results) == 2 {
+						if r0, ok := rs2.Results[0].(*ast.Ident); ok && r0.Name == "nil" {
+							lo, hi, ok := acceptGuard(c, is.Cond)
+							if !ok {
+								fail(p, am, "option guard is not  lo <= n && n <= hi : %s", render(p, is.Cond))
+							}
+							reject = fmt.Sprintf("(Some (%s, %s))", lo, hi)
+							body = []ast.Stmt{rs}
+						}
+					}
+				}
+			}
+		}
+	}
 	if len(body) == 2 {
 		// if o.n < lo || hi < o.n { return nil, errors.New(..) }
 		is, ok := body[0].(*ast.IfStmt)
@@ -1128,8 +1298,31 @@ func translateOption(p *tr.Pkg, decls map[string]*ast.FuncDecl, ctor string) str
 	return fmt.Sprintf("  {| o_ctor := %s; o_iface := %s; o_reject := %s;\n     o_expr := %s |}", q(ctor), q(iface), reject, c.strExpr(ce.Args[1]))
 }
 
+// lo <= n && n <= hi  (and its variants): the complement of the rejecting form
+func acceptGuard(c *ctx, e ast.Expr) (lo, hi string, ok bool) {
+	be, ok := e.(*ast.BinaryExpr)
+	if !ok || be.Op != token.LAND {
+		return "", "", false
+	}
+	neg := func(e ast.Expr) ast.Expr {
+		b, ok := e.(*ast.BinaryExpr)
+		if !ok {
+			return e
+		}
+		op := map[token.Token]token.Token{token.LSS: token.GEQ, token.GEQ: token.LSS, token.GTR: token.LEQ, token.LEQ: token.GTR}[b.Op]
+		if op == token.ILLEGAL {
+			return e
+		}
+		return &ast.BinaryExpr{X: b.X, Op: op, Y: b.Y, OpPos: b.OpPos}
+	}
+	return rangeGuard(c, &ast.BinaryExpr{X: neg(be.X), Op: token.LOR, Y: neg(be.Y), OpPos: be.OpPos})
+}
+
 // o.n < lo || hi < o.n   (also accepts o.n > hi, lo > o.n, and <= / >= with adjusted bounds)
 func rangeGuard(c *ctx, e ast.Expr) (lo, hi string, ok bool) {
+	if pe, ok := e.(*ast.ParenExpr); ok {
+		return rangeGuard(c, pe.X)
+	}
 	be, ok := e.(*ast.BinaryExpr)
 	if !ok || be.Op != token.LOR {
 		return "", "", false
@@ -1140,7 +1333,7 @@ func rangeGuard(c *ctx, e ast.Expr) (lo, hi string, ok bool) {
 			return false
 		}
 		id, ok := se.X.(*ast.Ident)
-		return ok && id.Name == "o" && se.Sel.Name == "n"
+		return ok && id.Name == c.optRecv && c.typeOf(se) == "int"
 	}
 	// returns ("lo"|"hi", bound)
 	side := func(e ast.Expr) (string, int64, bool) {
@@ -1304,23 +1497,53 @@ func translateGetFromAPI(p *tr.Pkg, decls map[string]*ast.FuncDecl) apiInfo {
 		}
 		return id.Name
 	}
+	statusAlias := map[string]bool{}
 	statusCmp := func(e ast.Expr) (token.Token, string, bool) {
 		be, ok := e.(*ast.BinaryExpr)
 		if !ok {
 			return 0, "", false
 		}
-		se, ok := be.X.(*ast.SelectorExpr)
-		if !ok || se.Sel.Name != "StatusCode" {
+		isStatus := func(e ast.Expr) bool {
+			if se, ok := e.(*ast.SelectorExpr); ok {
+				return se.Sel.Name == "StatusCode"
+			}
+			id, ok := e.(*ast.Ident)
+			return ok && statusAlias[id.Name]
+		}
+		x, y, op := be.X, be.Y, be.Op
+		if !isStatus(x) && isStatus(y) && (op == token.EQL || op == token.NEQ) {
+			x, y = y, x
+		}
+		if !isStatus(x) {
 			return 0, "", false
 		}
-		tv := p.Info.Types[be.Y]
+		tv := p.Info.Types[y]
 		if tv.Value == nil || tv.Value.Kind() != constant.Int {
 			return 0, "", false
 		}
-		return be.Op, tv.Value.ExactString(), true
+		return op, tv.Value.ExactString(), true
+	}
+	// local names for resp.StatusCode
+	ast.Inspect(fd.Body, func(n ast.Node) bool {
+		if as, ok := n.(*ast.AssignStmt); ok && len(as.Lhs) == 1 && len(as.Rhs) == 1 {
+			if se, ok := as.Rhs[0].(*ast.SelectorExpr); ok && se.Sel.Name == "StatusCode" {
+				if id, ok := as.Lhs[0].(*ast.Ident); ok {
+					statusAlias[id.Name] = true
+				}
+			}
+		}
+		return true
+	})
+	isAliasInit := func(s ast.Stmt) bool {
+		as, ok := s.(*ast.AssignStmt)
+		if !ok || len(as.Lhs) != 1 || len(as.Rhs) != 1 {
+			return false
+		}
+		se, ok := as.Rhs[0].(*ast.SelectorExpr)
+		return ok && se.Sel.Name == "StatusCode"
 	}
 	sawOther, sawSwitch, decodeInCase := false, false, false
-	for _, s := range fd.Body.List {
+	for _, s := range flatten(fd.Body.List) {
 		switch x := s.(type) {
 		case *ast.IfStmt:
 			// limiter block
@@ -1346,7 +1569,7 @@ func translateGetFromAPI(p *tr.Pkg, decls map[string]*ast.FuncDecl) apiInfo {
 				}
 				continue
 			}
-			if op, code, ok := statusCmp(x.Cond); ok && x.Init == nil && x.Else == nil && len(x.Body.List) == 1 {
+			if op, code, ok := statusCmp(x.Cond); ok && (x.Init == nil || isAliasInit(x.Init)) && x.Else == nil && len(x.Body.List) == 1 {
 				rs, ok := x.Body.List[0].(*ast.ReturnStmt)
 				if !ok {
 					fail(p, x, "getFromAPI: status block does not return")
